@@ -32,7 +32,7 @@ namespace
 
 using T = VERIF_T;
 
-enum Cat { ALWAYS, DIFF, STATE, COLL, OUT, SHARE, POS, RANKS };
+enum Cat { ALWAYS, DIFF, STATE, COLL, OUT, SHARE, POS, RANKS, DISTBINS };
 
 constexpr bool cat_on(Cat k)
 {
@@ -40,12 +40,14 @@ constexpr bool cat_on(Cat k)
     // same position; STATE: result k+1 records the refinement of result k; COLL: collective sequences / iteration counts;
     // RANKS: all ranks return the same checkpoint; OUT: only rank 0 prints / writes; DIFF: counters and sums vs serial
     return k == ALWAYS || VERIF_AS == 4 || (VERIF_AS == 16 && (k == SHARE || k == POS)) || (VERIF_AS == 19 && (k == STATE || k == POS))
-        || (VERIF_AS == 8 && k == STATE) || (VERIF_AS == 12 && (k == COLL || k == RANKS)) || (VERIF_AS == 20 && (k == OUT || k == RANKS));
+        || (VERIF_AS == 8 && k == STATE) || (VERIF_AS == 12 && (k == COLL || k == RANKS)) || (VERIF_AS == 20 && (k == OUT || k == RANKS))
+        || (VERIF_AS == 18 && k == OUT) || (VERIF_AS == 7 && (k == STATE || k == RANKS)) || (VERIF_AS == 11 && k == DISTBINS)
+        || (VERIF_AS == 2 && (k == DIFF || k == DISTBINS)) || (VERIF_AS == 3 && (k == STATE || k == RANKS));
 }
 
 #define VF_STR2(x) #x
 #define VF_STR(x) VF_STR2(x)
-#define MPI_SIG(name) ((VERIF_AS == 4 ? std::string("C04") : VERIF_AS == 8 ? std::string("C08") : std::string("C") + VF_STR(VERIF_AS)) + ":mpi-" + name)
+#define MPI_SIG(name) ((VERIF_AS < 10 ? std::string("C0") + VF_STR(VERIF_AS) : std::string("C") + VF_STR(VERIF_AS)) + ":mpi-" + name)
 #define MPI_CHECK(cat, ctx, cond, sig, streamed) do { if (cat_on(cat)) { VF_CHECK(ctx, cond, sig, streamed); } } while (0)
 
 // --- who prints / who opens the checkpoint file ------------------------------------------------------
@@ -141,28 +143,31 @@ template <typename Res>
 void compare_results(vf::Ctx& c, Res const& mpi, Res const& ser, std::size_t k, int P)
 {
     long double const eps = vf::eps<T>();
-    auto cmp = [&](hep::mc_result<T> const& a, hep::mc_result<T> const& b, std::string const& what) {
-        MPI_CHECK(DIFF, c, a.calls() == b.calls() && a.non_zero_calls() == b.non_zero_calls() && a.finite_calls() == b.finite_calls(), MPI_SIG("counters"),
+    auto cmp = [&](hep::mc_result<T> const& a, hep::mc_result<T> const& b, std::string const& what, Cat cat) {
+        if (!cat_on(cat)) { return; }
+        MPI_CHECK(ALWAYS, c, a.calls() == b.calls() && a.non_zero_calls() == b.non_zero_calls() && a.finite_calls() == b.finite_calls(), MPI_SIG("counters"),
             "iteration " << k << ' ' << what << ": counters " << a.calls() << '/' << a.non_zero_calls() << '/' << a.finite_calls() << " (MPI) vs " << b.calls() << '/'
             << b.non_zero_calls() << '/' << b.finite_calls() << " (serial)");
         long double const n = static_cast<long double>(b.calls() ? b.calls() : 1);
         long double const bound = std::sqrt(n * static_cast<long double>(b.sum_of_squares())) + std::fabs(static_cast<long double>(b.sum()));
         long double const tol = 4 * (P + 2) * eps * bound + 1e-300L;
         c.note_margin(tol, std::fabs(static_cast<long double>(a.sum()) - b.sum()));
-        MPI_CHECK(DIFF, c, close_enough(a.sum(), b.sum(), tol), MPI_SIG("sum"), "iteration " << k << ' ' << what << ": sum " << vf::show(a.sum()) << " (MPI) vs " << vf::show(b.sum()) << " (serial)");
+        MPI_CHECK(ALWAYS, c, close_enough(a.sum(), b.sum(), tol), MPI_SIG("sum"), "iteration " << k << ' ' << what << ": sum " << vf::show(a.sum()) << " (MPI) vs " << vf::show(b.sum()) << " (serial)");
         // the sum of squares is an uncompensated sum: two summation orders of n terms differ by up to ~ n eps
-        MPI_CHECK(DIFF, c, close_enough(a.sum_of_squares(), b.sum_of_squares(), (n + 4 * (P + 2)) * eps * static_cast<long double>(b.sum_of_squares()) + 1e-300L), MPI_SIG("sum-of-squares"),
+        MPI_CHECK(ALWAYS, c, close_enough(a.sum_of_squares(), b.sum_of_squares(), (n + 4 * (P + 2)) * eps * static_cast<long double>(b.sum_of_squares()) + 1e-300L), MPI_SIG("sum-of-squares"),
             "iteration " << k << ' ' << what << ": sum of squares " << vf::show(a.sum_of_squares()) << " vs " << vf::show(b.sum_of_squares()));
     };
-    cmp(mpi, ser, "result");
-    MPI_CHECK(DIFF, c, mpi.distributions().size() == ser.distributions().size(), MPI_SIG("distributions"), "iteration " << k << ": distribution count");
+    cmp(mpi, ser, "result", DIFF);
+    MPI_CHECK(DISTBINS, c, mpi.distributions().size() == ser.distributions().size(), MPI_SIG("distributions"), "iteration " << k << ": distribution count");
+    if (mpi.distributions().size() != ser.distributions().size()) { return; }
     for (std::size_t d = 0; d != ser.distributions().size(); ++d)
     {
         auto const& bm = mpi.distributions()[d].results();
         auto const& bs = ser.distributions()[d].results();
-        MPI_CHECK(DIFF, c, bm.size() == bs.size(), MPI_SIG("distributions"), "iteration " << k << ": bin count");
-        MPI_CHECK(DIFF, c, mpi.distributions()[d].parameters().name() == ser.distributions()[d].parameters().name(), MPI_SIG("distributions"), "distribution name");
-        for (std::size_t b = 0; b != bs.size(); ++b) { cmp(bm[b], bs[b], "distribution " + std::to_string(d) + " bin " + std::to_string(b)); }
+        MPI_CHECK(DISTBINS, c, bm.size() == bs.size(), MPI_SIG("distributions"), "iteration " << k << ": distribution " << d << " has " << bm.size() << " bins under MPI, " << bs.size() << " in the serial run");
+        if (bm.size() != bs.size()) { continue; }
+        MPI_CHECK(DISTBINS, c, mpi.distributions()[d].parameters().name() == ser.distributions()[d].parameters().name(), MPI_SIG("distributions"), "distribution name");
+        for (std::size_t b = 0; b != bs.size(); ++b) { cmp(bm[b], bs[b], "distribution " + std::to_string(d) + " bin " + std::to_string(b), DISTBINS); }
     }
 }
 
@@ -280,7 +285,7 @@ struct Mpi<E, vf::MULTI>
         if (k + 1 < chk.results().size())
         {
             auto const expect = hep::multi_channel_refine_weights(chk.results()[k].channel_weights(), chk.results()[k].adjustment_data(), chk.min_weight(), chk.beta());
-            MPI_CHECK(STATE, c, vf::same_bits(expect, chk.results()[k + 1].channel_weights()), MPI_SIG("state-threading"), "MPI: result " << (k + 1) << " records weights "
+            if (VERIF_AS != 7) MPI_CHECK(STATE, c, vf::same_bits(expect, chk.results()[k + 1].channel_weights()), MPI_SIG("state-threading"), "MPI: result " << (k + 1) << " records weights "
                 << vf::show(chk.results()[k + 1].channel_weights()) << ", the refinement of result " << k << " is " << vf::show(expect));
         }
     }
@@ -550,6 +555,7 @@ void run(vf::Ctx& c)
     sch.seed = t.stream_seed();
     sch.tree = t.flag();
     vf::RunCfg<T> cfg = vf::gen_cfg<T>(t);
+    if (t.pick(5) == 0) { cfg.fn.family = 9; } // zero / finite / non-finite by region: the counters differ from each other
     std::size_t const n = 1 + t.pick(4);
     std::vector<std::size_t> calls;
     for (std::size_t i = 0; i != n; ++i) { calls.push_back(pick_calls(t, sch.P)); }
@@ -586,6 +592,7 @@ void run(vf::Ctx& c)
     if (sch.P >= 9) { c.label("P>=9"); }
     if (target > T(0)) { c.label("positive-target"); }
     if (!cfg.fn.dists.empty()) { c.label("with-distributions"); }
+    if (cfg.fn.family == 9) { c.label("non-finite-region"); }
     c.label(cfg.kind == vf::PLAIN ? "PLAIN" : cfg.kind == vf::VEGAS ? "VEGAS" : "MULTI");
     c.nontrivial = sch.P >= 2 && uneven;
 }
@@ -596,6 +603,16 @@ void run(vf::Ctx& c)
 vf::Property const vf::property = {"C04", "", run, enumerate, nullptr};
 #elif VERIF_AS == 8
 vf::Property const vf::property = {"C08", "", run, nullptr, nullptr};
+#elif VERIF_AS == 2
+vf::Property const vf::property = {"C02", "", run, nullptr, nullptr};
+#elif VERIF_AS == 3
+vf::Property const vf::property = {"C03", "", run, nullptr, nullptr};
+#elif VERIF_AS == 7
+vf::Property const vf::property = {"C07", "", run, nullptr, nullptr};
+#elif VERIF_AS == 11
+vf::Property const vf::property = {"C11", "", run, nullptr, nullptr};
+#elif VERIF_AS == 18
+vf::Property const vf::property = {"C18", "", run, nullptr, nullptr};
 #elif VERIF_AS == 12
 vf::Property const vf::property = {"C12", "", run, nullptr, nullptr};
 #elif VERIF_AS == 16
